@@ -236,10 +236,13 @@ instance (g : Sess → Sess → Ans) : (l : List Sess) → Decidable (ValidPath 
 /-- executable specification: the sessions entered by exactly `k` changes -/
 def reachLevel (g : Sess → Sess → Ans) (skip : List Sess) : Nat → List Sess
   | 0 => [1]
-  | k + 1 => sessions.filter (fun u => decide (u ∉ skip) && (reachLevel g skip k).any (fun p => g p u == .pos))
+  | k + 1 =>
+    let prev := reachLevel g skip k
+    sessions.filter (fun u => decide (u ∉ skip) && prev.any (fun p => g p u == .pos))
 
 /-- executable specification: sessions entered by 1..d changes (ascending, distinct) -/
 def reachSet (g : Sess → Sess → Ans) (skip : List Sess) (d : Nat) : List Sess :=
-  sessions.filter (fun u => (List.range d).any (fun k => (reachLevel g skip (k + 1)).contains u))
+  let levels := (List.range d).map (fun k => reachLevel g skip (k + 1))
+  sessions.filter (fun u => levels.any (fun l => l.contains u))
 
 end Gallia.SessionScan
